@@ -9,6 +9,8 @@ import json, os, sys, time
 from collections import Counter, defaultdict
 
 VERIF = os.path.dirname(os.path.dirname(os.path.abspath(__file__)))
+# the selftest harness redirects evidence of its (parallel, patched-tree) runs away from the committed evidence directory
+EVID = os.environ.get("VERIF_EVIDENCE_DIR") or os.path.join(VERIF, "evidence")
 
 
 class EngineError(Exception):
@@ -149,13 +151,13 @@ def finish(run, level="other", explanation="", trusted=None, seed=0):
             violations.extend(fs[allowed:])
         else:
             violations.extend(fs)
-    os.makedirs(os.path.join(VERIF, "evidence", "replay"), exist_ok=True)
+    os.makedirs(os.path.join(EVID, "replay"), exist_ok=True)
     for k, fs in known_hit:
         print("KNOWN-FINDING: property=%s %s [%s x%d at %s]" % (
             run.prop, kn_what.get(k) or fs[0].msg, k, len(fs), ", ".join(sorted(set(l for f in fs for l in f.locs)))))
     vio_out = []
     for n, f in enumerate(violations):
-        rp = os.path.join(VERIF, "evidence", "replay", "%s-%d.json" % (run.prop, n))
+        rp = os.path.join(EVID, "replay", "%s-%d.json" % (run.prop, n))
         with open(rp, "w") as fh:
             json.dump({"property": run.prop, "rule": f.rule, "key": f.key, "message": f.msg,
                        "locations": f.locs, "detail": f.detail, "tree": run.info.get("root"),
@@ -171,7 +173,7 @@ def finish(run, level="other", explanation="", trusted=None, seed=0):
         vio_out.append({"rule": f.rule, "key": f.key, "msg": f.msg, "locs": f.locs})
     # remove stale replay files of this property
     import glob
-    for p in glob.glob(os.path.join(VERIF, "evidence", "replay", "%s-*.json" % run.prop)):
+    for p in glob.glob(os.path.join(EVID, "replay", "%s-*.json" % run.prop)):
         try:
             idx = int(os.path.basename(p)[len(run.prop) + 1:-5])
         except ValueError:
@@ -211,7 +213,7 @@ def finish(run, level="other", explanation="", trusted=None, seed=0):
         "wall_s": round(time.time() - run.t0 + run.info.get("extract_s", 0) * (0 if run.info.get("cached") else 1), 3),
         "violations": len(violations),
     }
-    with open(os.path.join(VERIF, "evidence", "%s.json" % run.prop), "w") as fh:
+    with open(os.path.join(EVID, "%s.json" % run.prop), "w") as fh:
         json.dump(ev, fh, indent=1)
     print("%s: %d obligations, %d discharged, %d known findings, %d violations (%s tier, %d fns, tree %s)" % (
         run.prop, run.obligations, run.discharged, sum(len(fs) for _, fs in known_hit), len(violations), run.tier,
